@@ -41,6 +41,20 @@ ORCH = 'chainables.orchestrate'
 def run(ctx: Ctx):
   for r in (r1, r2, r3, r4):
     ctx.guard(r)
+  from mlmverif.props import c09
+  ctx.include('R-C03-5', 'the sharded strategies (thread sub-shards, make(shard='
+              '...)) run over shards rebuilt from recorded state and over'
+              ' ranges of merged sequences: the rebuilt shard is the recorded'
+              ' one incl. its configuration (R-C09-2), explicit 0 bounds are'
+              ' honoured (R-C09-5) and a range never reads past its stop'
+              ' (R-C09-6)', _c09_shared, min_instances=7)
+
+
+def _c09_shared(sub):
+  from mlmverif.props import c09
+  sub.guard(c09.r2)
+  sub.guard(c09.r5)
+  sub.guard(c09.r6)
 
 
 def r1(ctx: Ctx):
